@@ -472,3 +472,66 @@ def c16_cases(seed=0):
                   conns=[dict(src="a/op/r", tgt="a/op/r_in", W=W(3, 3), d=d, s=s_)])
         out.append((f"P6-gamma-delay-{d}-{s_}", dict(delay=d, spread=s_, dt=0.01), ps))
     return out
+
+
+def dde_models():
+    """Models with past(x, tau) terms (C10, C12)."""
+    out = []
+    # delayed variable FIRST in the state vector
+    d1 = dict(name="d1", eqs=[["x", "de", ["*", N(-1.0), ["past", "x", 0.5]]]], vars={"x": ["output", 1.0]})
+    out.append(("H1-scalar-one-delay", dict(delays=[0.5]), model([d1], {"p": dict(ops=["d1"])})))
+    # delayed variable SECOND; positive coefficient inside a sum
+    d2 = dict(name="d2", eqs=[["x", "de", ["+", ["neg", V("x")], ["*", V("a"), V("z")]]],
+                              ["z", "de", ["+", V("x"), ["*", N(2.0), ["past", "z", 0.5]]]]],
+              vars={"x": ["output", 0.3], "z": ["state", -0.2], "a": ["const", 0.7]})
+    out.append(("H2-delayed-variable-second", dict(delays=[0.5], second=True), model([d2], {"p": dict(ops=["d2"])})))
+    # two delays on two variables
+    d3 = dict(name="d3", eqs=[["x", "de", ["+", ["neg", V("x")], ["*", N(0.5), ["past", "z", 0.3]]]],
+                              ["z", "de", ["+", ["neg", V("z")], ["*", N(1.5), ["past", "x", 0.7]]]]],
+              vars={"x": ["output", 0.3], "z": ["state", -0.2]})
+    out.append(("H3-two-delays-two-variables", dict(delays=[0.3, 0.7]), model([d3], {"p": dict(ops=["d3"])})))
+    # one variable read at two delays
+    d4 = dict(name="d4", eqs=[["x", "de", ["+", ["+", ["neg", V("x")], ["*", N(0.5), ["past", "x", 0.3]]], ["*", N(0.25), ["past", "x", 0.8]]]]],
+              vars={"x": ["output", 0.6]})
+    out.append(("H4-one-variable-two-delays", dict(delays=[0.3, 0.8]), model([d4], {"p": dict(ops=["d4"])})))
+    # instantaneous entry that still contains a delayed factor
+    d5 = dict(name="d5", eqs=[["x", "de", ["+", ["neg", V("x")], ["*", V("x"), ["past", "x", 0.4]]]]], vars={"x": ["output", 0.6]})
+    out.append(("H5-product-with-delayed-factor", dict(delays=[0.4]), model([d5], {"p": dict(ops=["d5"])})))
+    return out
+
+
+def c12_models():
+    """Scalar models for the Jacobian check."""
+    out = []
+    st = {t: m for t, f, m in c01_structured()}
+    out.append(("J1-linear-two-nodes", dict(), st["F2-parallel-1"]))
+    out.append(("J2-tanh-algebraic-chain", dict(), st["F1-chain-123"]))
+    out.append(("J3-fanin-two-inputs", dict(), st["F6-fanin-two-inputs"]))
+
+    def nl(name, fn, x="x"):
+        tree = ["+", ["neg", ["/", V(x), V("tau")]], ["*", V("k"), ["call", fn, ["*", V("g"), V("u")]]]]
+        return dict(name=name, eqs=[[x, "de", tree]],
+                    vars={x: ["output", 0.3], "tau": ["const", 2.0], "k": ["const", 1.5], "g": ["const", 0.8], "u": ["input", 0.2]})
+    for fn in ("sigmoid", "sin", "tanh", "exp", "absv", "cos"):
+        o = nl("nlo", fn)
+        out.append((f"J4-{fn}", dict(fn=fn), model([o], {"p1": dict(ops=["nlo"]), "p2": dict(ops=["nlo"], over={"nlo/tau": 1.0})},
+                                                    [edge("p1/nlo/x", "p2/nlo/u", 1.5), edge("p2/nlo/x", "p1/nlo/u", -0.7)])))
+    prod = dict(name="pr", eqs=[["x", "de", ["-", ["*", V("x"), V("z")], ["/", V("x"), ["+", N(2.0), ["pow", V("z"), 2]]]]],
+                                ["z", "de", ["+", ["neg", V("z")], ["*", V("a"), ["pow", V("x"), 2]]]]],
+                vars={"x": ["output", 0.3], "z": ["state", -0.2], "a": ["const", 0.7]})
+    out.append(("J5-products-quotients", dict(), model([prod], {"p": dict(ops=["pr"])})))
+    out.append(("J6-two-state-algebraic-output", dict(), st["F4-control-two-nodes"]))
+    # a state with a state-independent right-hand side that is NOT last (pacemaker), feeding others
+    pace = dict(name="pm", eqs=[["phi", "de", V("omega")]], vars={"phi": ["output", 0.1], "omega": ["const", 2.0]})
+    rcv = op_li("rc", x="v", ins=("u",), tau=1.0, x0=0.1)
+    out.append(("J7-pacemaker-first", dict(), model([pace, rcv], {"a": dict(ops=["pm"]), "b": dict(ops=["rc"]), "c": dict(ops=["rc"], over={"rc/tau": 3.0})},
+                                                    [edge("a/pm/phi", "b/rc/u", 0.5), edge("b/rc/v", "c/rc/u", 1.0)])))
+    # diamond of algebraic variables: c2 = f(c1), u' uses c2 and c1
+    dia = dict(name="dm", eqs=[["c1", "alg", ["*", V("g"), ["call", "tanh", V("x")]]],
+                               ["c2", "alg", ["*", N(2.0), ["pow", V("c1"), 2]]],
+                               ["x", "de", ["+", ["+", ["neg", V("x")], ["*", V("k"), V("c2")]], V("c1")]]],
+               vars={"x": ["output", 0.3], "c1": ["state", 0.0], "c2": ["state", 0.0], "g": ["const", 0.8], "k": ["const", 1.5]})
+    out.append(("J8-diamond-algebraic", dict(), model([dia], {"p": dict(ops=["dm"])})))
+    for t, f, m in dde_models():
+        out.append((t, dict(f, dde=True), m))
+    return out
